@@ -119,6 +119,12 @@ ScalarCases(g) ==
   \o SetToSeq(UNION { { [op |-> "mul.gen", g |-> g, routine |-> rt, bits |-> bits, base |-> b.base, affine |-> b.affine, k |-> Pad(s, bits \div 8), alias |-> 0, api |-> "cpp", src |-> "gen"] :
              rt \in {"wnaf", "wnaf_s", "doubleadd", "table", "multiply"},
              b \in { bb \in Bases(g) : Tier # "quick" \/ bb.affine = 0 }, s \in Scalars(bits) } : bits \in {64, 128, 256, 512} })
+  \* double-and-add with its optional third argument (the highest bit to read): hints that are not byte-aligned, scalars whose byte at the
+  \* hint is zero while lower bytes have high bits set, scalars with bits above the hint (they are not read)
+  \o SetToSeq(UNION { { [op |-> "mul.gen", g |-> g, routine |-> "doubleadd", bits |-> bits, base |-> b.base, affine |-> b.affine, k |-> Pad(s, bits \div 8), hb |-> hb,
+                          alias |-> 0, api |-> "cpp", src |-> "gen"] :
+             b \in { bb \in Bases(g) : bb.affine = 0 \/ Tier # "quick" }, hb \in {0, 3, 11, 22, bits - 10, bits - 6, bits - 2, bits - 1},
+             s \in { FromNat(240), FromNat(128), FromNat(61455), Sub(Pow2(bits), One), Add(Pow2(bits - 13), FromNat(3840)), ModPow2(Rnd(77), bits) } } : bits \in {64, 256} })
   \o (IF g = 1
       THEN SetToSeq({ [op |-> "mul.endo2", g |-> 1, base |-> b.base, affine |-> 0, c0 |-> Pad(c[1], 32), c1 |-> Pad(c[2], 32), n0 |-> n[1], n1 |-> n[2],
                        alias |-> al, api |-> "cpp", src |-> "gen"] :
